@@ -307,6 +307,10 @@ func genCProgram(t *rapid.T, kinds []string, maxClients, maxOps int) cProgram {
 	return p
 }
 
+// lastProgramDone is closed when the clients of the most recent program have all returned (a caller that gave up
+// waiting must not close the server under them: Close racing with requests is the embedding program's business).
+var lastProgramDone chan struct{}
+
 // runCProgram executes all clients concurrently (released together) and returns the recorded history.
 func runCProgram(srv *olareg.Server, u *cUniverse, p cProgram, timeout time.Duration) ([]cResult, bool) {
 	var mu sync.Mutex
@@ -335,10 +339,12 @@ func runCProgram(srv *olareg.Server, u *cUniverse, p cProgram, timeout time.Dura
 	select {
 	case <-done:
 	case <-time.After(timeout):
+		lastProgramDone = done
 		mu.Lock()
 		defer mu.Unlock()
 		return append([]cResult{}, res...), false
 	}
+	lastProgramDone = done
 	sort.Slice(res, func(i, j int) bool { return res[i].Call < res[j].Call })
 	return res, true
 }
